@@ -164,3 +164,4 @@ pub mod mkdrv;
 pub mod g9rt;
 pub mod g5oracle;
 pub mod g9mk;
+pub mod g7mm;
